@@ -7,6 +7,8 @@ import PgModel.C05Handles
 import PgModel.C05Dna
 import PgModel.C05Spec
 import PgModel.C05Geno
+import PgModel.C05MemSeq
+import PgGen.C05Fn
 import PgGen.C05Sig
 open Pg Pg.C05
 
@@ -384,6 +386,16 @@ def handle (j : J) : J :=
         J.obj (base ++ [("opts", J.obj [("json", jvToJ jo), ("rt", resToJ (fromJson env ap jo))])])
       | _, _ => J.obj base
     | _, _, _ => bad "codec"
+  | some "codec_many" =>
+    match (j.get? "env").bind envOfJ, j.getArr? "items" with
+    | some env, some items =>
+      .obj [("outs", .arr (items.map fun it =>
+        match (it.get? "value").bind treeOfJ, it.getBool? "hide_frozen", it.getBool? "hide_default_values" with
+        | some t, some hf, some hd =>
+          let jo := toJsonO ⟨hf, hd⟩ env t
+          J.obj [("json", jvToJ jo), ("rt", resToJ (fromJson env true jo))]
+        | _, _, _ => bad "codec_many item"))]
+    | _, _ => bad "codec_many"
   | some "codec_opts" =>
     match (j.get? "env").bind envOfJ, (j.get? "value").bind treeOfJ, j.getBool? "ap",
           j.getBool? "hide_frozen", j.getBool? "hide_default_values" with
@@ -409,6 +421,26 @@ def handle (j : J) : J :=
       let (_, outs) := run c [] ops
       .obj [("outs", .arr (outs.map outToJ))]
     | _, _ => bad "store"
+  | some "memseq" =>
+    let opOf (o : J) : Option SOp := do
+      match ← o.getStr? "k" with
+      | "add" =>
+        let rs ← (← o.getArr? "r").mapM (·.asStr?)
+        pure (.add (ofS (← o.getStr? "p")) (← (o.get? "m").bind modeOfJ) (rs.map ofS))
+      | "read" => pure (.read (ofS (← o.getStr? "p")))
+      | "mutate" => pure (.mutateResult 0 0)
+      | _ => none
+    match (j.getArr? "ops").bind (·.mapM opOf) with
+    | some ops =>
+      .obj [("outs", .arr ((sRun MemSeq.empty ops).2.map fun
+        | .unit => J.null
+        | .records rs => .obj [("r", .arr (rs.map fun r => .str (toS r)))]))]
+    | none => bad "memseq"
+  | some "fn" =>
+    let name : FnOrigin → String
+      | .moduleDef => "module-def" | .moduleLambda => "module-lambda" | .classBodyDef => "class-body-def"
+      | .classBodyLambda => "class-body-lambda" | .nestedDef => "nested-def" | .nestedLambda => "nested-lambda"
+    .obj (FnOrigin.all.map fun o => (name o, .bool (writtenByCode fnTests o)))
   | some "geno_env" =>
     let kindJ : Kind → J
       | .any => .str "any" | .bool => .str "bool" | .int => .str "int" | .str => .str "str"
